@@ -153,7 +153,7 @@ def r09_4(ctx: Ctx):
     rid = 'R09.4'
     ctx.rule(rid, 'sibling agreement: GetInverseImage and GetPreimages have the same path summaries')
     e = evo.evo_of(ctx)
-    ex = ctx.explorer(inline=lambda f, st: False)
+    ex = ctx.explorer(inline=lambda f, st: False, inline_private=False)
     a, b = e.get_inverse, e.get_pre
     pa = [summarise(p, a) for p in ex.explore(a, args={a.param_names[1]: var('y')})]
     pb = [summarise(p, b) for p in ex.explore(b, args={b.param_names[1]: var('y')})]
